@@ -11,21 +11,22 @@
 EXTENDS TimersProp, Json, SequencesExt
 
 H == ndJsonDeserialize("cases.ndjson")
-VARIABLES h, l, pend, results, st, emitted
-vars == <<h, l, pend, results, st, emitted>>
+VARIABLES h, l, pend, results, st, emitted, mk
+vars == <<h, l, pend, results, st, emitted, mk>>
 Evs == H[h].events
 Ev == Evs[l]
 Empty == [x \in {} |-> 0]
 With(f, k, v) == [x \in DOMAIN f \cup {k} |-> IF x = k THEN v ELSE f[x]]
 
-Init == h \in DOMAIN H /\ l = 1 /\ pend = {} /\ results = Empty /\ st = Empty /\ emitted = {}
+Init == /\ h \in DOMAIN H /\ l = 1 /\ pend = {} /\ results = Empty /\ st = Empty /\ emitted = {}
+        /\ mk \in (IF H[h].impl = "sio" THEN {"cancel", "replace"} ELSE {"none"})
 
 Call == /\ l <= Len(Evs) /\ Ev.ev = "call"
         /\ pend' = pend \cup {[op |-> Ev.op, kind |-> Ev.kind, id |-> Ev.id, d |-> Ev.d, t |-> Ev.t]}
-        /\ l' = l + 1 /\ UNCHANGED <<h, results, st, emitted>>
-Lin == \E o \in pend : LET r == ApplyReq(o, st, H[h].impl) IN
+        /\ l' = l + 1 /\ UNCHANGED <<h, results, st, emitted, mk>>
+Lin == \E o \in pend : LET r == ApplyReq(o, st, H[h].impl, mk) IN
          /\ pend' = pend \ {o} /\ results' = With(results, o.op, r.res) /\ st' = r.st
-         /\ UNCHANGED <<h, l, emitted>>
+         /\ UNCHANGED <<h, l, emitted, mk>>
 \* SioRequestIgnored (named deviation): requests to the single-loop crew's timers machine have no
 \* reply; the machine may not take a request at all (its start node's patterns are matched under
 \* the bindings left by an earlier failed request).  Such a request is not accepted and has no
@@ -34,29 +35,29 @@ Ignored == /\ H[h].impl = "sio"
            /\ \E o \in pend :
                 /\ pend' = pend \ {o}
                 /\ results' = With(results, o.op, IF o.kind = "add" THEN "rejected" ELSE "notfound")
-                /\ UNCHANGED <<h, l, st, emitted>>
+                /\ UNCHANGED <<h, l, st, emitted, mk>>
 Ret == /\ l <= Len(Evs) /\ Ev.ev = "ret" /\ Ev.op \in DOMAIN results /\ results[Ev.op] = Ev.res
-       /\ l' = l + 1 /\ UNCHANGED <<h, pend, results, st, emitted>>
+       /\ l' = l + 1 /\ UNCHANGED <<h, pend, results, st, emitted, mk>>
 \* the timer stops being pending (its id becomes free); only useful if its firing is observed later
 WillFire(k) == \E j \in l..Len(Evs) : Evs[j].ev = "fire" /\ Evs[j].token = k
 FireLin == \E k \in DOMAIN st :
              /\ st[k].status = "pending" /\ WillFire(k)
              /\ st' = With(st, k, [st[k] EXCEPT !.status = "fired"])
-             /\ UNCHANGED <<h, l, pend, results, emitted>>
+             /\ UNCHANGED <<h, l, pend, results, emitted, mk>>
 \* the observed firing: of a timer that has fired (so: not cancelled), once, not before its due time
 Fire == /\ l <= Len(Evs) /\ Ev.ev = "fire"
         /\ Ev.token \in DOMAIN st /\ st[Ev.token].status = "fired" /\ Ev.token \notin emitted
         /\ Ev.t >= st[Ev.token].t + st[Ev.token].d
         /\ emitted' = emitted \cup {Ev.token}
-        /\ l' = l + 1 /\ UNCHANGED <<h, pend, results, st>>
-Hook == /\ l <= Len(Evs) /\ Ev.ev = "hook" /\ l' = l + 1 /\ UNCHANGED <<h, pend, results, st, emitted>>
+        /\ l' = l + 1 /\ UNCHANGED <<h, pend, results, st, mk>>
+Hook == /\ l <= Len(Evs) /\ Ev.ev = "hook" /\ l' = l + 1 /\ UNCHANGED <<h, pend, results, st, emitted, mk>>
 \* final snapshot, taken after every short delay has long passed: what the service reports as
 \* pending is exactly the pending timers, and only timers with a long delay can still be pending
 Snap == /\ l <= Len(Evs) /\ Ev.ev = "snap" /\ pend = {}
         /\ {Ev.pending[i] : i \in DOMAIN Ev.pending} = PendingIdsOf(st)
         /\ \A k \in DOMAIN st : st[k].status = "pending" => st[k].d >= H[h].long
         /\ \A k \in DOMAIN st : st[k].status = "fired" => k \in emitted
-        /\ l' = l + 1 /\ UNCHANGED <<h, pend, results, st, emitted>>
+        /\ l' = l + 1 /\ UNCHANGED <<h, pend, results, st, emitted, mk>>
 
 Next == Call \/ Lin \/ Ignored \/ Ret \/ FireLin \/ Fire \/ Hook \/ Snap
 Spec == Init /\ [][Next]_vars
